@@ -231,6 +231,116 @@ fn breaker_body(reject_probe: bool, callback: bool, other: Op, with_err: bool) -
     })
 }
 
+/// A custom generator that calls back into read-only manager functions of its own family,
+/// registered for a Custom strategy; then a rule of that strategy is loaded / appended while a
+/// second thread reads the rules.
+fn generator_body(fam: Fam, via_append: bool) -> Body {
+    Arc::new(move || {
+        clock::set_ms(T0_MS + 250);
+        init(fam);
+        let r1 = R1.to_string();
+        match fam {
+            Fam::Flow => {
+                use sentinel_verif_rt::sync::Mutex;
+                flow::set_traffic_shaping_generator(
+                    flow::CalculateStrategy::Custom(7),
+                    flow::ControlStrategy::Reject,
+                    Box::new(|rule: Arc<flow::Rule>, _stat| {
+                        // read-only call-backs
+                        let _ = flow::get_rules();
+                        let _ = flow::get_rules_of_resource(&rule.resource);
+                        let stat = Arc::new(flow::StandaloneStat::new(false, sentinel_core::base::nop_read_stat(), Some(sentinel_core::base::nop_write_stat())));
+                        let calculator: Arc<Mutex<dyn flow::Calculator>> = Arc::new(Mutex::new(flow::DirectCalculator::new(std::sync::Weak::new(), rule.clone())));
+                        let checker: Arc<Mutex<dyn flow::Checker>> = Arc::new(Mutex::new(flow::RejectChecker::new(std::sync::Weak::new(), rule.clone())));
+                        let mut tc = flow::Controller::new(rule, stat);
+                        tc.set_calculator(calculator.clone());
+                        tc.set_checker(checker.clone());
+                        let tc = Arc::new(tc);
+                        calculator.lock().unwrap().set_owner(Arc::downgrade(&tc));
+                        checker.lock().unwrap().set_owner(Arc::downgrade(&tc));
+                        Ok(tc)
+                    }),
+                )
+                .unwrap();
+                let custom = Arc::new(flow::Rule { id: "custom".into(), resource: R1.into(), threshold: 5.0, calculate_strategy: flow::CalculateStrategy::Custom(7), ..Default::default() });
+                let h = shuttle::thread::spawn(move || {
+                    if via_append {
+                        flow::append_rule(custom);
+                    } else {
+                        flow::load_rules(vec![custom]);
+                    }
+                });
+                let h2 = shuttle::thread::spawn(move || {
+                    let _ = flow::get_rules_of_resource(&r1);
+                });
+                h.join().unwrap();
+                h2.join().unwrap();
+                let _ = flow::remove_traffic_shaping_generator(flow::CalculateStrategy::Custom(7), flow::ControlStrategy::Reject);
+            }
+            Fam::Cb => {
+                cb::set_circuit_breaker_generator(
+                    cb::BreakerStrategy::Custom(7),
+                    Box::new(|rule: Arc<cb::Rule>, _stat| {
+                        let _ = cb::get_rules();
+                        let _ = cb::get_rules_of_resource(&rule.resource);
+                        Arc::new(cb::ErrorCountBreaker::new(rule))
+                    }),
+                )
+                .unwrap();
+                let custom = Arc::new(cb::Rule { id: "custom".into(), resource: R1.into(), strategy: cb::BreakerStrategy::Custom(7), retry_timeout_ms: 100, stat_interval_ms: 1000, threshold: 3.0, ..Default::default() });
+                let h = shuttle::thread::spawn(move || {
+                    if via_append {
+                        cb::append_rule(custom);
+                    } else {
+                        cb::load_rules(vec![custom]);
+                    }
+                });
+                let h2 = shuttle::thread::spawn(move || {
+                    let _ = cb::get_rules_of_resource(&r1);
+                });
+                h.join().unwrap();
+                h2.join().unwrap();
+                let _ = cb::remove_circuit_breaker_generator(&cb::BreakerStrategy::Custom(7));
+            }
+            Fam::Hotspot => {
+                use sentinel_verif_rt::sync::Mutex;
+                hotspot::set_traffic_shaping_generator(
+                    hotspot::ControlStrategy::Custom(7),
+                    Box::new(|rule: Arc<hotspot::Rule>, _metric| {
+                        let _ = hotspot::get_rules();
+                        let _ = hotspot::get_rules_of_resource(&rule.resource);
+                        let checker: Arc<Mutex<dyn hotspot::Checker<hotspot::Counter>>> = Arc::new(Mutex::new(hotspot::RejectChecker::<hotspot::Counter>::new()));
+                        let mut tc = hotspot::Controller::new(rule);
+                        tc.set_checker(checker.clone());
+                        let tc = Arc::new(tc);
+                        checker.lock().unwrap().set_owner(Arc::downgrade(&tc));
+                        tc
+                    }),
+                )
+                .unwrap();
+                let custom = Arc::new(hotspot::Rule { id: "custom".into(), resource: R1.into(), metric_type: hotspot::MetricType::QPS, control_strategy: hotspot::ControlStrategy::Custom(7), threshold: 5, duration_in_sec: 1, ..Default::default() });
+                let h = shuttle::thread::spawn(move || {
+                    if via_append {
+                        hotspot::append_rule(custom);
+                    } else {
+                        hotspot::load_rules(vec![custom]);
+                    }
+                });
+                let h2 = shuttle::thread::spawn(move || {
+                    let _ = hotspot::get_rules_of_resource(&r1);
+                });
+                h.join().unwrap();
+                h2.join().unwrap();
+                let _ = hotspot::remove_traffic_shaping_generator(hotspot::ControlStrategy::Custom(7));
+            }
+            _ => {}
+        }
+        health_probe();
+        outcome("done".into());
+        cleanup();
+    })
+}
+
 pub fn scenarios(thorough: bool) -> Vec<Scenario> {
     let mut v = vec![];
     let ops = [Op::LoadSame, Op::LoadOther, Op::LoadRes, Op::Append, Op::ClearAll, Op::ClearRes, Op::Get];
@@ -257,6 +367,12 @@ pub fn scenarios(thorough: bool) -> Vec<Scenario> {
     for (fa, fb) in [(Fam::Flow, Fam::Cb), (Fam::Hotspot, Fam::Iso), (Fam::Sys, Fam::Flow)] {
         for (a, c) in [(Op::LoadOther, Op::LoadOther), (Op::Append, Op::ClearAll), (Op::LoadRes, Op::Append)] {
             v.push(Scenario { name: format!("{:?}:{:?}||{:?}:{:?}||Entry", fa, a, fb, c), bound: b, cap: 3_000_000, body: pair_body((fa, fb), (a, c), true) });
+        }
+    }
+    // custom generators that call back into read-only manager functions
+    for f in [Fam::Flow, Fam::Cb, Fam::Hotspot] {
+        for via_append in [false, true] {
+            v.push(Scenario { name: format!("{:?}:custom-generator-calls-get_rules:{}", f, if via_append { "append" } else { "load" }), bound: 2, cap: 3_000_000, body: generator_body(f, via_append) });
         }
     }
     // breaker-specific: probe (rejected by another rule or not) racing with reloads, listeners calling back
